@@ -10,6 +10,7 @@ from __future__ import annotations
 
 import ast
 import builtins
+import os
 import hashlib
 import inspect
 import operator
@@ -71,8 +72,13 @@ def source_hash(func):
 
 
 def is_repo_function(f):
-    return isinstance(f, types.FunctionType) and (f.__module__ or "").startswith(REPO_PREFIX) \
-        and not f.__code__.co_filename.startswith("<")
+    """a python function whose code lives in the repository (also when functools.wraps disguised its module)"""
+    if not isinstance(f, types.FunctionType):
+        return False
+    fn = f.__code__.co_filename
+    if fn.startswith("<"):
+        return False
+    return (f.__module__ or "").startswith(REPO_PREFIX) or (os.sep + "src" + os.sep + "leaspy" + os.sep) in fn
 
 
 def is_repo_class(c):
@@ -156,6 +162,11 @@ class Interp:
             if wrapped is not None and inspect.isgeneratorfunction(wrapped):
                 raise OutOfSubset(f"generator-based context manager {f.__qualname__} called outside `with`")
             return self.call_function(f, args, kwargs)
+        if not isinstance(f, (types.FunctionType, types.BuiltinFunctionType, types.MethodType, type)) and not is_sym(f):
+            # a native instance of a repository class that defines __call__ (e.g. NamedInputFunction)
+            call_m = inspect.getattr_static(type(f), "__call__", None)
+            if is_repo_function(call_m):
+                return self.call_function(call_m, (f,) + tuple(args), kwargs)
         if isinstance(f, types.MethodType):
             # bound method of a native object
             m = models.lookup_method(f)
@@ -175,6 +186,9 @@ class Interp:
                     return f(*args, **kwargs)
                 except Exception as e:  # native exception becomes a path outcome
                     raise SymRaise(ExcValue(type(e), e.args), node)
+        if isinstance(f, types.FunctionType) and os.path.dirname(os.path.dirname(os.path.abspath(__file__))) in os.path.abspath(f.__code__.co_filename):
+            # harness code of the contract files (probes, stub rules): plain python
+            return f(*args, **kwargs)
         raise OutOfSubset(f"call to unmodelled {getattr(f, '__qualname__', f)!r} "
                           f"with symbolic arguments", node)
 
